@@ -28,9 +28,9 @@ theorem checkAffected_backlog (sp : Spec) (w : World) (t : Tid) : (checkAffected
 
 /-- `Task.complete` in a completed workflow: no task is created, the workflow state stays; the backlog
     is polled by the dispatcher and dropped -/
-theorem completeTaskX_completed (sp : Spec) (w : World) (r : TaskRow) (s : St) (hc : isCompleted w.wf = true) :
-    ids (completeTaskX sp w r s) = ids w ∧ (completeTaskX sp w r s).wf = w.wf ∧
-      ((completeTaskX sp w r s).backlog = w.backlog ∨ (completeTaskX sp w r s).backlog = []) := by
+theorem completeTaskX_completed (srt : Sorter) (sp : Spec) (w : World) (r : TaskRow) (s : St) (hc : isCompleted w.wf = true) :
+    ids (completeTaskX srt sp w r s) = ids w ∧ (completeTaskX srt sp w r s).wf = w.wf ∧
+      ((completeTaskX srt sp w r s).backlog = w.backlog ∨ (completeTaskX srt sp w r s).backlog = []) := by
   obtain ⟨_, hp, _⟩ := completed_not_paused_or_idle w.wf hc
   unfold completeTaskX
   split
@@ -38,8 +38,8 @@ theorem completeTaskX_completed (sp : Spec) (w : World) (r : TaskRow) (s : St) (
     unfold ids; rw [(checkAffected_tasks sp w _).1]
   · simp only [hc, if_true, hp, Bool.false_eq_true, if_false, List.filter_nil, List.isEmpty_nil, List.map_nil]
     have hd : ∀ (ts : List TaskRow) (p : List Item),
-        dispatchX sp { w with tasks := ts, pending := p } [] = { w with tasks := ts, pending := p, backlog := [] } :=
-      fun ts p => dispatchX_completed sp { w with tasks := ts, pending := p } [] hc
+        dispatchX srt sp { w with tasks := ts, pending := p } [] = { w with tasks := ts, pending := p, backlog := [] } :=
+      fun ts p => dispatchX_completed srt sp { w with tasks := ts, pending := p } [] hc
     refine ⟨?_, ?_, Or.inr ?_⟩
     · unfold ids
       rw [(checkAffected_tasks sp _ _).1, hd]
@@ -51,25 +51,25 @@ theorem completeTaskX_completed (sp : Spec) (w : World) (r : TaskRow) (s : St) (
     late result, start request, refresh job, completion check, duplicate, pause / resume / stop command -
     creates a task execution or changes the workflow state, also not through the backlog: the commands saved
     there are never dispatched any more (the backlog is left alone or polled and dropped). -/
-theorem no_dispatch_into_completed (sp : Spec) (w : World) (ev : Event) (hc : isCompleted w.wf = true) :
-    ids (stepX sp w ev) = ids w ∧ (stepX sp w ev).wf = w.wf ∧
-      ((stepX sp w ev).backlog = w.backlog ∨ (stepX sp w ev).backlog = []) := by
+theorem no_dispatch_into_completed_g (srt : Sorter) (sp : Spec) (w : World) (ev : Event) (hc : isCompleted w.wf = true) :
+    ids (stepXg srt sp w ev) = ids w ∧ (stepXg srt sp w ev).wf = w.wf ∧
+      ((stepXg srt sp w ev).backlog = w.backlog ∨ (stepXg srt sp w ev).backlog = []) := by
   obtain ⟨hpi, hp, hidle⟩ := completed_not_paused_or_idle w.wf hc
   cases ev with
   | start =>
     have : (w.wf != .IDLE) = true := by simpa using hidle
-    simp [stepX, this]
+    simp [stepXg, this]
   | pause =>
-    refine ⟨by simp [stepX, ids], ?_, Or.inl rfl⟩
-    cases hw : w.wf <;> simp_all [stepX, isCompleted, Gen.States.completedStates] <;> decide
-  | resume => simp [stepX, hpi]
+    refine ⟨by simp [stepXg, ids], ?_, Or.inl rfl⟩
+    cases hw : w.wf <;> simp_all [stepXg, isCompleted, Gen.States.completedStates] <;> decide
+  | resume => simp [stepXg, hpi]
   | stop t =>
-    refine ⟨by simp [stepX, ids], ?_, Or.inl rfl⟩
-    simp only [stepX]
+    refine ⟨by simp [stepXg, ids], ?_, Or.inl rfl⟩
+    simp only [stepXg]
     cases hw : w.wf <;> simp_all [isCompleted, Gen.States.completedStates] <;> cases t <;> decide
-  | execute t ok => simp only [stepX]; split <;> exact ⟨rfl, rfl, Or.inl rfl⟩
+  | execute t ok => simp only [stepXg]; split <;> exact ⟨rfl, rfl, Or.inl rfl⟩
   | deliver it =>
-    simp only [stepX]
+    simp only [stepXg]
     split
     · exact ⟨rfl, rfl, Or.inl rfl⟩
     · cases it with
@@ -104,7 +104,7 @@ theorem no_dispatch_into_completed (sp : Spec) (w : World) (ev : Event) (hc : is
         split
         · exact ⟨rfl, rfl, Or.inl rfl⟩
         · rename_i r _
-          exact completeTaskX_completed sp { w with pending := removeFirst w.pending (.rpcResult t ok) } r _ hc
+          exact completeTaskX_completed srt sp { w with pending := removeFirst w.pending (.rpcResult t ok) } r _ hc
       | jobRefresh t =>
         simp only
         split
@@ -114,6 +114,11 @@ theorem no_dispatch_into_completed (sp : Spec) (w : World) (ev : Event) (hc : is
           · exact ⟨rfl, rfl, Or.inl rfl⟩
           · have : isCompleted w.wf = true := hc
             simp [this, ids]
+
+theorem no_dispatch_into_completed (sp : Spec) (w : World) (ev : Event) (hc : isCompleted w.wf = true) :
+    ids (stepX sp w ev) = ids w ∧ (stepX sp w ev).wf = w.wf ∧
+      ((stepX sp w ev).backlog = w.backlog ∨ (stepX sp w ev).backlog = []) :=
+  no_dispatch_into_completed_g pySorter sp w ev hc
 
 /-- … hence along EVERY history: from the moment the workflow is completed the set of task executions and
     the workflow state never change again, whatever is in the backlog -/
@@ -138,13 +143,14 @@ theorem no_dispatch_into_completed_reachable (sp : Spec) (evs evs' : List Event)
     nothing of it is created. -/
 theorem pause_command_saves_rest (sp : Spec) (w : World) (pre : List Cmd) (p : Cmd) (rest : List Cmd)
     (hw : w.wf = .RUNNING) (hpre : ∀ c ∈ pre, cmdKind c.target = .task) (hp : cmdKind p.target = .pause) :
-    processX sp false w (pre ++ p :: rest) =
+    processX pySorter sp false w (pre ++ p :: rest) =
       { (pySort (cmdLT fun c => c.existing.isNone && (isJoin sp c.target).isSome) pre).foldl
           (dispatchOneX sp false) w with
           wf := .PAUSED,
           backlog := w.backlog ++ rest.filter (fun c => cmdKind c.target != .noop) } := by
   unfold processX
   rw [rearrange_tasks_pause _ pre p rest hpre hp, List.foldl_append, List.foldl_cons]
+  simp only [pySorter_apply]
   have hpre' : ∀ c ∈ pySort (cmdLT fun c => c.existing.isNone && (isJoin sp c.target).isSome) pre,
       cmdKind c.target = .task := fun c hc => hpre c ((pySort_perm _ pre).2 c |>.mp hc)
   obtain ⟨h1, h2⟩ := foldl_tasks_running sp false _ w hw hpre'
@@ -159,12 +165,12 @@ theorem pause_command_saves_rest (sp : Spec) (w : World) (pre : List Cmd) (p : C
 
 /-- the saved commands stay in the backlog as long as the workflow is PAUSED: no event but `resume`
     touches it (never lost while PAUSED) -/
-theorem backlog_untouched_while_paused (sp : Spec) (w : World) (ev : Event) (hw : w.wf = .PAUSED)
-    (hev : ∀ x, ev = x → x ≠ .resume) : (stepX sp w ev).backlog = w.backlog := by
+theorem backlog_untouched_while_paused_g (srt : Sorter) (sp : Spec) (w : World) (ev : Event) (hw : w.wf = .PAUSED)
+    (hev : ∀ x, ev = x → x ≠ .resume) : (stepXg srt sp w ev).backlog = w.backlog := by
   have hp : isPaused w.wf = true := by rw [hw]; decide
   have hnc : isCompleted w.wf = false := by rw [hw]; decide
   have hct : ∀ (p : List Item) (r : TaskRow) (s : St),
-      (completeTaskX sp { w with pending := p } r s).backlog = w.backlog := by
+      (completeTaskX srt sp { w with pending := p } r s).backlog = w.backlog := by
     intro p r s
     unfold completeTaskX
     split
@@ -173,12 +179,12 @@ theorem backlog_untouched_while_paused (sp : Spec) (w : World) (ev : Event) (hw 
       simp only [hp, if_true]
   cases ev with
   | resume => exact absurd rfl (hev _ rfl)
-  | start => simp only [stepX]; split <;> first | rfl | (rename_i h; rw [hw] at h; exact absurd h (by decide))
+  | start => simp only [stepXg]; split <;> first | rfl | (rename_i h; rw [hw] at h; exact absurd h (by decide))
   | pause => rfl
   | stop t => rfl
-  | execute t ok => simp only [stepX]; split <;> rfl
+  | execute t ok => simp only [stepXg]; split <;> rfl
   | deliver it =>
-    simp only [stepX]
+    simp only [stepXg]
     split
     · rfl
     · cases it with
@@ -230,6 +236,10 @@ theorem backlog_untouched_while_paused (sp : Spec) (w : World) (ev : Event) (hw 
                       · rw [checkAffected_backlog]
                         simp only [hp, if_true]
                     · rfl
+
+theorem backlog_untouched_while_paused (sp : Spec) (w : World) (ev : Event) (hw : w.wf = .PAUSED)
+    (hev : ∀ x, ev = x → x ≠ .resume) : (stepX sp w ev).backlog = w.backlog :=
+  backlog_untouched_while_paused_g pySorter sp w ev hw hev
 
 /-- one RunTask command in a RUNNING workflow, restored from the backlog or freshly calculated: `dispatchTask`
     (joins: deferred through the unique key).  REGRESSION of the finding `join-created-idle`: before
@@ -283,16 +293,17 @@ theorem foldl_restored_tasks (sp : Spec) (cs : List Cmd) :
     `no_dispatch_into_completed`.) -/
 theorem backlog_restored_once (sp : Spec) (bl : List Cmd) (w : World) (hw : w.wf = .RUNNING) (hb : w.backlog = [])
     (hbl : ∀ c ∈ bl, cmdKind c.target = .task ∧ c.existing = none) :
-    processX sp true w bl = (pySort (cmdLT fun c => c.existing.isNone && (isJoin sp c.target).isSome) bl).foldl (dispatchTask sp) w ∧
-    (processX sp true w bl).backlog = [] ∧ (processX sp true w bl).wf = .RUNNING ∧
+    processX pySorter sp true w bl = (pySort (cmdLT fun c => c.existing.isNone && (isJoin sp c.target).isSome) bl).foldl (dispatchTask sp) w ∧
+    (processX pySorter sp true w bl).backlog = [] ∧ (processX pySorter sp true w bl).wf = .RUNNING ∧
     (pySort (cmdLT fun c => c.existing.isNone && (isJoin sp c.target).isSome) bl).length = bl.length ∧ (∀ c, c ∈ pySort (cmdLT fun c => c.existing.isNone && (isJoin sp c.target).isSome) bl ↔ c ∈ bl) := by
   obtain ⟨hlen, hmem⟩ := pySort_perm (cmdLT fun c => c.existing.isNone && (isJoin sp c.target).isSome) bl
   have hbl' : ∀ c ∈ pySort (cmdLT fun c => c.existing.isNone && (isJoin sp c.target).isSome) bl, cmdKind c.target = .task ∧ c.existing = none :=
     fun c hc => hbl c ((hmem c).mp hc)
   obtain ⟨h1, h2, h3⟩ := foldl_restored_tasks sp _ w hw hbl'
-  have he : processX sp true w bl = (pySort (cmdLT fun c => c.existing.isNone && (isJoin sp c.target).isSome) bl).foldl (dispatchTask sp) w := by
+  have he : processX pySorter sp true w bl = (pySort (cmdLT fun c => c.existing.isNone && (isJoin sp c.target).isSome) bl).foldl (dispatchTask sp) w := by
     unfold processX
     rw [rearrange_tasks _ bl (fun c hc => (hbl c hc).1)]
+    simp only [pySorter_apply]
     exact h1
   refine ⟨he, ?_, ?_, hlen, hmem⟩
   · rw [he, h3]; exact hb
@@ -317,8 +328,8 @@ theorem backlog_restored_once_plain (sp : Spec) (cs : List Cmd) :
 /-! ### C10: no creation while PAUSED, engine commands included -/
 
 /-- `Task.complete` while the workflow is PAUSED: recorded, nothing dispatched, no execution created -/
-theorem completeTaskX_paused (sp : Spec) (w : World) (r : TaskRow) (s : St) (hw : w.wf = .PAUSED) :
-    ids (completeTaskX sp w r s) = ids w ∧ (completeTaskX sp w r s).wf = .PAUSED := by
+theorem completeTaskX_paused (srt : Sorter) (sp : Spec) (w : World) (r : TaskRow) (s : St) (hw : w.wf = .PAUSED) :
+    ids (completeTaskX srt sp w r s) = ids w ∧ (completeTaskX srt sp w r s).wf = .PAUSED := by
   have hp : isPaused w.wf = true := by rw [hw]; decide
   unfold completeTaskX
   split
@@ -329,20 +340,20 @@ theorem completeTaskX_paused (sp : Spec) (w : World) (r : TaskRow) (s : St) (hw 
 
 /-- C10 "pause creates no new tasks", engine commands included: while the workflow is PAUSED no event but
     `resume` creates a task execution - results are recorded, commands go to the backlog. -/
-theorem no_creation_while_pausedX (sp : Spec) (w : World) (ev : Event) (hw : w.wf = .PAUSED)
-    (hev : ∀ x, ev = x → x ≠ .resume) : ids (stepX sp w ev) = ids w := by
+theorem no_creation_while_pausedX_g (srt : Sorter) (sp : Spec) (w : World) (ev : Event) (hw : w.wf = .PAUSED)
+    (hev : ∀ x, ev = x → x ≠ .resume) : ids (stepXg srt sp w ev) = ids w := by
   have hp : isPaused w.wf = true := by rw [hw]; decide
   have key : ∀ (ts : List TaskRow) (p : List Item) (r : TaskRow) (s : St),
-      ids (completeTaskX sp { w with tasks := ts, pending := p } r s) = ids { w with tasks := ts, pending := p } :=
-    fun ts p r s => (completeTaskX_paused sp { w with tasks := ts, pending := p } r s hw).1
+      ids (completeTaskX srt sp { w with tasks := ts, pending := p } r s) = ids { w with tasks := ts, pending := p } :=
+    fun ts p r s => (completeTaskX_paused srt sp { w with tasks := ts, pending := p } r s hw).1
   cases ev with
   | resume => exact absurd rfl (hev _ rfl)
-  | start => simp only [stepX]; split <;> first | rfl | (rename_i h; rw [hw] at h; exact absurd h (by decide))
+  | start => simp only [stepXg]; split <;> first | rfl | (rename_i h; rw [hw] at h; exact absurd h (by decide))
   | pause => rfl
   | stop t => rfl
-  | execute t ok => simp only [stepX]; split <;> rfl
+  | execute t ok => simp only [stepXg]; split <;> rfl
   | deliver it =>
-    simp only [stepX]
+    simp only [stepXg]
     split
     · rfl
     · cases it with
@@ -394,6 +405,10 @@ theorem no_creation_while_pausedX (sp : Spec) (w : World) (ev : Event) (hw : w.w
                     · rw [key]
                       simp [ids, setTask_ids]
                     · simp [ids, setTask_ids]
+
+theorem no_creation_while_pausedX (sp : Spec) (w : World) (ev : Event) (hw : w.wf = .PAUSED)
+    (hev : ∀ x, ev = x → x ≠ .resume) : ids (stepX sp w ev) = ids w :=
+  no_creation_while_pausedX_g pySorter sp w ev hw hev
 
 /-! non-vacuity: the seeded scenario (corpus/core/backlog_after_stop.json) -/
 
